@@ -152,13 +152,27 @@ Definition perr_offset (e : perr) : Z :=
    | None => 1
    end) - 1.
 
-(* restructuredtext._EpydocReader.report (the observer attached to docutils' reporter):
+(* restructuredtext._EpydocReader.report (the observer attached to docutils' reporter), as repaired by the
+   `fix:` commit 105813f:
         linenum: Optional[int] = error.get('line')          # docutils: 1-based line of the block
+        if linenum is not None:
+            linenum -= 1                                    # ParseError counts from 0
         msg = ''.join(c.astext() for c in error)
-        self._errors.append(ParseError(msg, linenum, is_fatal))
-   The 1-based docutils line is stored where ParseError documents a 0-based one. *)
+        self._errors.append(ParseError(msg, linenum, is_fatal))                                        *)
 Definition rst_reader_perr (msg : text) (docutils_line : option Z) : perr :=
+  {| pe_descr := msg; pe_stored := option_map (fun l => l - 1) docutils_line |}.
+
+(* the reader before the repair (kept for the _old_refuted witness): the 1-based docutils line was stored
+   where ParseError documents a 0-based one *)
+Definition rst_reader_perr_old (msg : text) (docutils_line : option Z) : perr :=
   {| pe_descr := msg; pe_stored := docutils_line |}.
+
+(* restructuredtext._SplitFieldsTranslator.visit_field, a consolidated field that cannot be split:
+        self._errors.append(ParseError(estr, node.line, is_fatal=False))
+   node.line is docutils' 1-based line of the field; it is still stored unchanged
+   (pydoctor/test/epydoc/restructuredtext.doctest pins the resulting "Line 4"). *)
+Definition rst_consolidated_perr (msg : text) (node_line : Z) : perr :=
+  {| pe_descr := msg; pe_stored := Some node_line |}.
 
 (* epytext: StructuringError / ColorizingError (descr, token.startline) -- startline is the 0-based index of the
    first line of the paragraph / list item / field / heading token in the cleaned docstring *)
@@ -228,6 +242,7 @@ Definition one_run (verbosity : Z) (wae : bool) (header : text) (o : obj) (ps : 
      6 verbosity wae header violations ( (section (name ...)) ... )
                                                -> ( code violations number-of-printed-lines )
      8 docutils-line-opt                       -> ( stored-opt offset )      (rst_reader_perr)
+     9 node-line                               -> ( stored-opt offset )      (rst_consolidated_perr)
      7 verbosity wae header description fullname is_module linenumber has_doc node_lineno doc ( problem ... )
             problem := ( 0 descr stored-opt ) | ( 1 message field_lineno ) | ( 2 message lineno )
                                                -> ( docstring_lineno cleandoc code violations ( printed ... ) )   *)
@@ -296,6 +311,9 @@ Definition run (s : sexp) : sexp :=
     L ([A (o_docstring_lineno o); of_text d; A code] ++ state_sexp st)
   | 8 =>
     let e := rst_reader_perr [] (to_optZ (nth_s 1 s)) in
+    L [of_option A (pe_stored e); A (perr_offset e)]
+  | 9 =>
+    let e := rst_consolidated_perr [] (to_Z (nth_s 1 s)) in
     L [of_option A (pe_stored e); A (perr_offset e)]
   | _ => bad_input
   end.
